@@ -21,7 +21,7 @@ PROP = "C10"
 KEYS = {
     "struct": [("rename", False, "rename_all", False), ("rename_all", False, "rename", False), ("tag", False, "rename_all", False)],
     "enum": [("rename", False, "rename_all", False), ("rename_all", False, "rename_all_fields", False),
-             ("rename_all_fields", False, "rename_all", False), ("tag", False, "rename_all", False),
+             ("rename_all_fields", False, "rename_all", False), ("tag", False, "rename_all", False), ("tag", False, "content", False),
              ("content", False, "rename_all", False), ("untagged", True, "rename_all", False)],
     "variant": [("rename", False, "rename_all", False), ("rename_all", False, "rename", False), ("skip", True, "", False),
                 ("untagged", True, "rename", False)],
@@ -73,7 +73,8 @@ def carrier(pos, lists, info):
     if pos == "struct":
         return "%s struct Carrier { foo_bar: i32, other_field: Inner }" % a
     if pos == "enum":
-        ctx = '#[ts(tag = "kind")] ' if info == "content" or any(e["key"] == "content" for l in lists for e in l["entries"]) else ""
+        has = lambda k_: any(e["key"] == k_ for l in lists for e in l["entries"])
+        ctx = '#[ts(tag = "kind")] ' if (info == "content" or has("content")) and not has("tag") else ""
         return "%s%s enum Carrier { FooBar { inner_field: i32 }, UnitVariant, NewT(Inner) }" % (ctx, a)
     if pos == "variant":
         return "enum Carrier { %s FooBar { inner_field: i32 }, UnitVariant }" % a
